@@ -10,7 +10,8 @@ ERRDEV = [0, 1, 2, 3, 11, 14, -21, 300, 64]
 # custom levels with negative / large values with and without the error device, an unregistered value
 PROBES = [4, 2, 3, 8, 7, 13, 14, 11, 5, -21, 300, 70, 64, 99]
 OBS = ["dest"]
-WANTS = [3, 4, 7, 8]       # writer ids w with (w-1)%4 in {2,3} ask to be told the severity (harness/rec.go)
+WANTS = [3, 4, 7, 8, 49]   # writer ids w with (w-1)%4 in {2,3} ask to be told the severity (harness/rec.go); 49 is such a
+                           # writer wrapped by the application with slog.NewLogWriter
 
 
 OPT = lambda k, a, b=0: dict(k=k, a=a, b=b)
@@ -32,9 +33,9 @@ def config(quick):
     """One logger, every writer operation as a method: the complete graph is replayed."""
     # writer 41 is a real *os.File (what an application's log file or pipe is)
     if quick:
-        ws_n, ws_e, lw = [1, 3, 41], [4], [(3, 4)]
+        ws_n, ws_e, lw = [1, 3, 41], [4, 49], [(3, 4)]
     else:
-        ws_n, ws_e, lw = [1, 3, 41], [2, 4], [(1, 4), (4, 4), (3, 14)]
+        ws_n, ws_e, lw = [1, 3, 41], [2, 4, 49], [(1, 4), (4, 4), (3, 14)]
     wl = sorted(set(v for _, v in lw))
     sa = {
         "Writer": [(w, 0) for w in ws_n + [0]], "AddWriter": [(w, 0) for w in ws_n + [0]], "RemoveWriter": [(w, 0) for w in ws_n + [0]],
@@ -68,7 +69,7 @@ def config_reg(quick):
 
 def rand_config(c):
     r = dict(c)
-    ws = [1, 2, 3, 4, 5, 8, 0, 41, 42]
+    ws = [1, 2, 3, 4, 5, 8, 0, 41, 42, 49, 50]
     wl = [4, 14, 2, 8]
     r["wlevels"] = wl
     r["setter_args"] = {
@@ -87,7 +88,7 @@ def explain(ev, b):
     """Signature: which writer operation was the last call, on which kind of writer."""
     kinds = {0: "plain", 1: "lw", 2: "ls", 3: "pls"}
     k = ev["k"] if ev["op"] in ("Set", "With") else ev["op"]
-    wk = "file" if ev["a"] >= 41 and "Writer" in k else kinds[(ev["a"] - 1) % 4] if ev["a"] > 0 and ("Writer" in k) and not k.startswith("Reset") else "-"
+    wk = "nlw" if ev["a"] >= 49 and "Writer" in k else "file" if ev["a"] >= 41 and "Writer" in k else kinds[(ev["a"] - 1) % 4] if ev["a"] > 0 and ("Writer" in k) and not k.startswith("Reset") else "-"
     notes = []
     for li, o in enumerate(ev.get("obs", []), 1):
         for d in o.get("dest", []):
